@@ -54,7 +54,7 @@ func (w *limitWriter) Write(p []byte) (int, error) {
 		return len(p), nil
 	}
 	w.buf.Write(p[:a])
-	return a, errBoom
+	return a, errDst
 }
 
 func ints(s string) []int {
